@@ -16,6 +16,9 @@ CLAIMS = {
  "C07": ("interprocedural provenance of every matcher input to the splitter's path result; CFG outcome rules on the trigger decision, rule matcher and splitter; exhaustiveness of the pattern type switch against the generated oneof",
          "Decides that no string other than the path component (result #0 of the splitter applied to the request target) can reach a pattern matcher or the empty-path test, that the splitter cuts at the first '?'/'#', and that the decision functions have the documented shape (disjunction over rules, excluded before included, empty lists) with an arm per pattern kind and the path as subject. The boolean function over all inputs is not enumerated.",
          "go/ssa model; Envoy puts the query inside `path`; strings/regexp contracts"),
+ "C15": ("call-graph reachability from Check (static + own-type CHA) and per-site obligations: unchecked type assertions, nil-dereference with callee nil/failure-signal summaries and edge-sensitive branch facts, verdict totality (must-pass), bounds idioms, abort scan",
+         "For every function reachable from Check in own code, enumerates every site of the panic classes that originate in own code (type assertion, nil dereference of a value that can be nil, index/slice, map write, explicit abort) and requires a recognised discharging idiom at each; an unrecognised site fails closed. Decides crash-freedom for those classes over all inputs and IdP/store answers; panics inside jwx/net/http/protobuf/go-redis and termination are not decided.",
+         "go/ssa model; dependency functions follow the (value, error) convention; generated getters are nil-safe (checked for own generated code); protojson yields no nil repeated elements"),
 }
 
 NOT_YET = "check under construction in this round; see DESIGN.md section 4 for the planned static rules"
